@@ -31,7 +31,11 @@ Definition eval07 (c : case07) : verdict :=
     Nat.eqb (length ws) (length p0) && wf_graphb g (length p0) && rows_sortedb g
     && symmetricb g && no_self_loopb g && pos_edgesb g
     && forallb (fun w => 0 <=? w) ws && forallb (fun x => (x <=? 1)%N) p0
-    && match fm_cap mi pw with Some _ => true | None => false end   (* the cap converts to i64 *) in
+    && match fm_cap mi pw with Some _ => true | None => false end   (* the code's cap converts to i64 *)
+    && match cap_prop mi pw with Some _ => true | None => false end (* and so does the property's *) in
+  (* the code's cap (three f64 roundings) exceeds the property's (the exact value rounded once):
+     known-finding class fm-cap-f64-rounding-total-ge-2p53 / fm-cap-f64-double-rounding *)
+  let cap_above := match fm_cap mi pw, cap_prop mi pw with Some c, Some cp => cp <? c | _, _ => false end in
   let corr :=
     match r, c_impl c with
     | Ok (FmOk p mpp rpp), IOk p' =>
@@ -46,15 +50,17 @@ Definition eval07 (c : case07) : verdict :=
     end in
   let prop :=
     if in_contract then
-      match fm_cap mi pw, c_impl c with
-      | Some cap, IOk p => check_C07 g ws cap (c_mp c) (c_mm c) p0 p (c_mpp c) (c_rpp c)
+      (* the cap of the property text, not the code's: C07_sound_prop_cap_partial / _none *)
+      match cap_prop mi pw, c_impl c with
+      | Some capp, IOk p => check_C07 g ws capp (c_mp c) (c_mm c) p0 p (c_mpp c) (c_rpp c)
       | _, _ => false                        (* panic, hang or error inside the contract *)
       end
     else true in
-  (* 0 unchanged | 1 changed | 2 panic | 3 hang | 4 error;  +10 outside the contract *)
+  (* 0 unchanged | 1 changed | 2 panic | 3 hang | 4 error;  +10 outside the contract;
+     +20 inside the contract with the code's cap above the property's (known-finding class) *)
   let base := match c_impl c with
               | IOk p => if list_eqb N.eqb p p0 then 0 else 1
               | IPanic => 2 | IHang => 3 | IErr _ _ _ => 4 end%N in
-  {| corr_ok := corr; prop_ok := prop; cls := (if in_contract then base else base + 10)%N |}.
+  {| corr_ok := corr; prop_ok := prop; cls := (if in_contract then (if cap_above then base + 20 else base) else base + 10)%N |}.
 
 Definition run07 (cs : list case07) := report (map eval07 cs).
